@@ -1,6 +1,7 @@
 (* C16 - lemmas lifting the boolean checks of Model.v to the statements of Props.v. *)
 From Coq Require Import String.
 From V Require Import Lib.Base Lib.Automata Lib.Bisim C16.Model.
+(* end of imports *)
 Local Open Scope N_scope.
 
 Lemma conforms_by_check I S : bisim_auto I S = true -> conforms I S.
